@@ -4,6 +4,8 @@
 #include "prog.hpp"
 #include "props.hpp"
 #include <sys/mman.h>
+#include <sys/resource.h>
+#include <sys/wait.h>
 
 using namespace prog;
 
@@ -161,6 +163,7 @@ void prop_c07(hz::Ctx &ctx) {
 }
 
 // ================================================================= C08
+static std::string check08_unprivileged(int len, int k);
 struct C08Case { int q = 1, delta = 0, mode = 0, cidx = 7, combo = DEFAULT_COMBO, ncalls = 1; bool safe = true; uint64_t seed = 1, poolseed = 1; bool reassemble = false;
   int family = 0;   /* 1: (q*6000 - delta) one-byte nops, then one instruction of the pool, then the tail: probes the growth threshold exactly */
   int chunkv = -1;  /* explicit chunk size (family 1) */ bool split_tail = false; /* the last call is exactly the tail */ bool failfirst = false; /* every call is first tried with a bad line appended */ };
@@ -300,13 +303,45 @@ void prop_c08(hz::Ctx &ctx) {
     if (!ctx.take()) continue; C08Case c; c.family = 2; c.q = q; c.delta = d; c.mode = 1; long long T = 6020 + 6000LL * (q - 1); c.chunkv = (int)(T - 20 - d + j); c.combo = DEFAULT_COMBO; c.ncalls = 1 + (d + j) % 2; c.safe = false; c.seed = (uint64_t)lsel + 5 * (uint64_t)((d * 13 + j + ctx.seed) % 1000); c.poolseed = ctx.seed; c.failfirst = (d + j + lsel) % 5 == 0;
     run(c, "part:overhang-family", false);
   }
+  // the same in a process without privileges and with an ordinary user's resource limits
+  { static const int LEN[] = {3000, 6100, 40000, 70000, 200000, 1000000}; for (int li = 0; li < 6; li++) for (int k = 0; k < (ctx.thorough() ? 6 : 2); k++) {
+      if (!ctx.take()) continue; std::string id = "C08U|" + std::to_string(LEN[li]) + "|" + std::to_string(k + (int)(ctx.seed % 5)); if (!ctx.begin(id, "unprivileged process, " + std::to_string(LEN[li]) + " bytes of code")) continue;
+      ctx.cls("part:unprivileged-process"); if (LEN[li] > 6020) ctx.nontrivial(id);
+      std::string why = check08_unprivileged(LEN[li], k + (int)(ctx.seed % 5));
+      if (ctx.want_sample()) ctx.put_sample("process of uid 65534 with 64 KiB lockable memory, " + std::to_string(LEN[li]) + " bytes of code -> " + (why.empty() ? "same as on a caller buffer" : why));
+      if (!why.empty()) { hz::Failure f; f.caseid = id; f.text = "unprivileged process (uid 65534, RLIMIT_MEMLOCK 64 KiB): a program of " + std::to_string(LEN[li]) + " bytes of code on the library-managed buffer"; f.symptom = "unprivileged"; f.detail = why; f.tags = {"mn:growth", "form:internal", "sym:unprivileged"}; ctx.fail(f); } } }
   auto gen_case = rc::gen::apply([&](int q, int d, int mode, int cidx, int combo, int ncalls, bool safe, int seed, bool re) { C08Case c; c.q = q; c.delta = d; c.mode = mode; c.cidx = cidx; c.combo = combo; c.ncalls = ncalls; c.safe = safe; c.seed = (uint64_t)seed; c.poolseed = ctx.seed; c.reassemble = re; c.split_tail = (seed & 3) == 0; c.failfirst = (seed & 12) == 4; return c; },
     range(1, 6), range(-3000, 3001), range(0, 3), range(0, 13), range(0, 12), range(1, 9), rc::gen::arbitrary<bool>(), range(0, 1 << 30), rc::gen::arbitrary<bool>());
   rc_rounds(ctx, "C08-programs", ctx.thorough() ? 30000 : 4000, 100, [&]() { C08Case c = *gen_case; run(c, "part:random", true); }, 100);
 }
 
+// A process as an ordinary user has it: no privileges (uid 65534) and small resource limits (64 KiB of lockable memory, the classic default).
+// A program of `len` bytes of code on the library-managed buffer gives what a caller buffer gives.  Run in a forked child; returns "" or what differs.
+static std::string check08_unprivileged(int len, int k) {
+  if (geteuid() != 0) return "";
+  fflush(nullptr); pid_t pid = fork();
+  if (pid == 0) {
+    struct rlimit lim; lim.rlim_cur = lim.rlim_max = 64 * 1024; if (setrlimit(RLIMIT_MEMLOCK, &lim) != 0) _exit(77);
+    if (setgid(65534) != 0 || setuid(65534) != 0) _exit(77);
+    if (&alw != nullptr) { alw.tight_code = 0; alw.guard_code = 0; }   // the library's own mapping calls reach the kernel as they are
+    static const char *L[] = {"mov rax, 0x1122334455667788\n", "add qword [rbx+rcx*8+0x100], 5\n", "nop9\n", "vpaddd ymm1, ymm2, [rax+0x40]\n"}; std::string prog; size_t code = 0; static const int LL[] = {10, 9, 9, 5};
+    for (int i = 0; code < (size_t)len; i++) { prog += L[(i + k) % 4]; code += LL[(i + k) % 4]; }
+    std::vector<uint8_t> ext(code + 64, 0xcc); assemblyline_t e = asm_create_instance(ext.data(), (int)ext.size()), a = asm_create_instance(nullptr, 0); if (!e || !a) _exit(2);
+    int re = asm_assemble_str(e, prog.c_str()); int ncalls = 1 + k % 3; int ra = 0; size_t per = prog.size() / ncalls; size_t p0 = 0;
+    for (int c = 0; c < ncalls && ra == 0; c++) { size_t p1 = c == ncalls - 1 ? prog.size() : prog.find('\n', p0 + per) + 1; ra = asm_assemble_str(a, prog.substr(p0, p1 - p0).c_str()); p0 = p1; }
+    if (re != 0) _exit(3); if (ra != 0) _exit(4); if (asm_get_offset(a) != asm_get_offset(e)) _exit(5); if (memcmp(asm_get_code(a), ext.data(), asm_get_offset(e))) _exit(6);
+    asm_destroy_instance(a); asm_destroy_instance(e); _exit(0);
+  }
+  int st = 0; waitpid(pid, &st, 0);
+  if (WIFEXITED(st) && (WEXITSTATUS(st) == 0 || WEXITSTATUS(st) == 77)) return "";
+  if (!WIFEXITED(st)) return "the process ended abnormally (status " + std::to_string(st) + ")";
+  static const char *WHY[] = {"", "", "an instance could not be created", "the program failed on the caller buffer", "a call on the library-managed buffer returned EXIT_FAILURE (the caller buffer takes the program)", "the offsets differ", "the bytes differ"};
+  int x = WEXITSTATUS(st); return x >= 2 && x <= 6 ? WHY[x] : "child status " + std::to_string(x);
+}
+
 int replay_buf(const std::string &caseid) {
   hz::Ctx ctx;
+  if (caseid.compare(0, 5, "C08U|") == 0) { auto f = split(caseid, '|'); if (f.size() != 3) return 2; std::string why = check08_unprivileged(atoi(f[1].c_str()), atoi(f[2].c_str())); printf("unprivileged process, %s bytes of code: %s\n", f[1].c_str(), why.empty() ? "OK" : ("FAIL " + why).c_str()); return why.empty() ? 0 : 1; }
   if (caseid.compare(0, 4, "C07|") == 0) { C07Case c; if (!parse07(caseid, c)) return 2; ctx.seed = c.poolseed; BV v = check07(pool(ctx), c); printf("%s\n", text07(c).c_str()); if (v.ok) { printf("OK\n"); return 0; } printf("FAIL %s : %s\n", v.symptom.c_str(), v.detail.c_str()); return 1; }
   if (caseid.compare(0, 4, "C08|") == 0) { C08Case c; if (!parse08(caseid, c)) return 2; ctx.seed = c.poolseed; GV v = check08(pool(ctx), c); printf("%s\n", text08(c).c_str()); if (v.ok) { printf("OK\n"); return 0; } printf("FAIL %s : %s\n", v.symptom.c_str(), v.detail.c_str()); return 1; }
   return 2;
